@@ -25,7 +25,7 @@
 (* Law: stored = Gbs!ApplyGbs(integrated, chi, start) -- orientations      *)
 (* exactly (the statement says "exactly"; clip is the identity on entries  *)
 (* of [-1, 1]), volumes up to the rounding of two renormalisations         *)
-(* (Tol = 1e-12 relative; observed < 2e-15).  Earlier invocations of the   *)
+(* (Tol = 1e-12 relative; observed <= 2e-15).  Earlier invocations of the  *)
 (* same update are not judged: their output is what the solver was handed  *)
 (* back, not what the update ends with; whether the solver re-reads the    *)
 (* vector is an implementation matter the statement is silent about.       *)
@@ -44,6 +44,7 @@
 (*                integrated volumes below chi/n (rank of the threshold)   *)
 (*   masked[g]    stored orientation == start orientation, all 9 entries   *)
 (*   kept[g]      stored orientation == integrated orientation, all 9      *)
+(*                (or == its clip to [-1, 1]: storing clips, C01)          *)
 (*   fdev[g]      |f_stored[g] S / (chi/n) - 1|   in 1e-15, S = the sum    *)
 (*                before renormalisation = sum of the integrated volumes   *)
 (*                with those below chi/n replaced by chi/n                 *)
